@@ -3,14 +3,20 @@ NOTES = ("All checks are driven by /verif/check (python3, stdlib). Specification
          "/verif/harness (binary gv) and the goml CLI are rebuilt from /repo's working tree on every run with --cfg goml_verif. "
          "Exit 0 = held (KNOWN-FINDING lines for defects listed in known_findings.json), 1 = VIOLATION, 2 = tool error.")
 ENGINES = [
-    {"name": "tlc", "path": "/verif/spec", "serves_properties": ["C01", "C02", "C05", "C06", "C07", "C08", "C09", "C10", "C11", "C13", "C15", "C17", "C18"],
+    {"name": "tlc", "path": "/verif/spec", "serves_properties": ["C01", "C02", "C05", "C06", "C07", "C08", "C09", "C10", "C11", "C12", "C13", "C15", "C17", "C18"],
      "kind_free_text": "TLA+ specifications model-checked / simulated by TLC 1.8"},
-    {"name": "gv", "path": "/verif/harness", "serves_properties": ["C01", "C02", "C05", "C06", "C07", "C08", "C09", "C10", "C11", "C13", "C15", "C17", "C18"],
+    {"name": "gv", "path": "/verif/harness", "serves_properties": ["C01", "C02", "C05", "C06", "C07", "C08", "C09", "C10", "C11", "C12", "C13", "C15", "C17", "C18"],
      "kind_free_text": "Rust conformance harness with path dependencies on /repo/crates/*, and the goml CLI built from /repo"},
 ]
 PENDING = "check not built yet in this round (planned in DESIGN.md §4); not a claim that the technique cannot apply"
 NOT_APPLICABLE = {p: PENDING for p in ["C%02d" % i for i in range(1, 21)]}
 CHECKS = {
+    "C12": {
+        "level": "model_checking",
+        "technique": "TreeBuilder.tla (event replay + fuel) model-checked for all small token/event lists; recorded tokens, parser events, tree leaves and diagnostics of real parses validated by TreeTrace.tla (leaves re-derived from tokens+events, tiling, boundaries, ranges)",
+        "text": "TLC checks on TreeBuilder.tla that the tree's leaves are always an in-order prefix of the token list, that the tree is lossless exactly when there is one Advance per significant token (and which suffix is lost otherwise), and that exhausted fuel forces EOF. For every input text - all strings of <= 2 (3) symbols over a 30-symbol alphabet covering each token class, quotes, backslashes, the multi-line string introducer, 2- and 4-byte characters and an illegal character, seeded longer strings, bodies of functions, and seeded mutations of the corpus - the real lexer and parser are run; TreeTrace.tla re-derives the leaves from the recorded tokens and events and compares them with the recorded tree, and checks that token ranges tile the text on character boundaries, tree text = input, all node and diagnostic ranges lie in the text, and a second parse is identical.",
+        "note": "Beyond the enumerated lengths this is seeded sampling (as DESIGN.md states).",
+    },
     "C11": {
         "level": "model_checking",
         "technique": "Pratt.tla (documented precedence table, minimal-parenthesis Render, declarative Parse) checked by TLC for Parse(Render(t)) = t on all small trees; each rendered token list, with varied trivia, parsed by the real lexer/parser/AST lowering and compared with the tree; Lexis.tla literal denotations compared with the AST's literal values",
